@@ -253,6 +253,11 @@ pub fn stem(msg: &str) -> String {
         Some(i) => &msg[..i],
         None => msg,
     };
+    // ... and before paths on the simulated disk
+    let msg = match msg.find("/sim/") {
+        Some(i) => &msg[..i],
+        None => msg,
+    };
     let mut cleaned = String::new();
     let mut in_q = false;
     for ch in msg.chars() {
@@ -304,6 +309,9 @@ pub struct Env {
     pub strict_types: bool,
     /// thread group of this instance's database threads
     pub group: u32,
+    /// a panic the database caught itself (worker survives, caller gets an error) is a violation
+    /// except where failing requests are the workload (C11/C12)
+    pub contained_panics_violate: bool,
 }
 
 static NEXT_GROUP: std::sync::atomic::AtomicU32 = std::sync::atomic::AtomicU32::new(1);
@@ -311,7 +319,7 @@ static NEXT_GROUP: std::sync::atomic::AtomicU32 = std::sync::atomic::AtomicU32::
 impl Env {
     pub fn new(root: &str, opts: OptsSpec) -> Env {
         rt::fs::add_root(root);
-        Env { root: root.to_string(), opts, db: None, model: Model::default(), violations: Vec::new(), counters: BTreeMap::new(), panics_seen: 0, strict_types: false, group: NEXT_GROUP.fetch_add(1, std::sync::atomic::Ordering::SeqCst) }
+        Env { root: root.to_string(), opts, db: None, model: Model::default(), violations: Vec::new(), counters: BTreeMap::new(), panics_seen: 0, strict_types: false, group: NEXT_GROUP.fetch_add(1, std::sync::atomic::Ordering::SeqCst), contained_panics_violate: true }
     }
 
     pub fn count(&mut self, k: &str) {
@@ -332,12 +340,26 @@ impl Env {
     pub fn collect_panics(&mut self, context: &str) {
         let (all, from): (Vec<rt::core::PanicRec>, usize) = rt::core::with_ctx(|c| (c.panics.clone(), self.panics_seen.min(c.panics.len())));
         self.panics_seen = all.len();
+        let cpv = self.contained_panics_violate;
+        let reported = move |p: &rt::core::PanicRec| !p.contained || cpv;
+        // index of the first panic that is (or was) reported: later PoisonError / Canceled panics are its echoes
+        let first_reported = all.iter().position(reported);
+        let mut out = Vec::new();
         for (i, p) in all.iter().enumerate().skip(from) {
-            if i > 0 && (p.message.contains("PoisonError") || p.message.contains("Canceled")) {
+            if p.contained {
+                self.count("panics_contained_by_database");
+            }
+            if !reported(p) {
+                continue;
+            }
+            if first_reported.map(|f| i > f).unwrap_or(false) && (p.message.contains("PoisonError") || p.message.contains("Canceled")) {
                 continue;
             }
             let class = format!("panic:{}:{}", file_of(&p.location), stem(&p.message));
-            self.violate(&class, format!("[{context}] thread {} panicked at {}: {}", p.role, p.location, rt::core::truncate(&p.message, 300)));
+            out.push((class, format!("[{context}] thread {} panicked at {}{}: {}", p.role, p.location, if p.contained { " (caught by the worker loop; the request fails)" } else { "" }, rt::core::truncate(&p.message, 300))));
+        }
+        for (c, d) in out {
+            self.violate(&c, d);
         }
     }
 
@@ -370,7 +392,14 @@ impl Env {
         if let Some(db) = self.db.take() {
             match Arc::try_unwrap(db) {
                 Ok(db) => drop(db),
-                Err(_) => panic!("harness bug: database handle still shared at close"),
+                Err(shared) => {
+                    // client threads that never finished (reported as a hang) still hold the
+                    // handle: nothing to wait for
+                    drop(shared);
+                    self.count("close_with_stuck_clients");
+                    rt::core::log("op_return", || "close (handle still held by stuck clients)".into());
+                    return;
+                }
             }
         }
         if !rt::thread::wait_db_quiescent(self.group) {
@@ -546,9 +575,6 @@ impl Env {
     /// Catalogue: `_meta_tables` names every user table and every `_meta_columns_<t>` exactly once;
     /// `_meta_columns_<t>` names every column of t exactly once.
     pub fn check_catalogue(&mut self, ctx: &str) {
-        if self.model.tables.is_empty() {
-            return;
-        }
         match self.query("SELECT name, timestamp FROM _meta_tables") {
             Ok(o) => {
                 let got: Vec<String> = o.rows.iter().map(|r| match &r[0] { Cell::S(s) => s.clone(), c => c.short() }).collect();
